@@ -1,18 +1,159 @@
 package zzverif
 
-// Native counterparts of the scheduler intrinsics. Under the executor `go f()` creates
-// a thread that only runs when RunSchedule picks it; natively the harness's goroutines
-// are real, and schedule replays are driven by the harness through Yield hand-offs.
+import (
+	"fmt"
+	"sync"
+	"time"
+)
+
+// Scheduler API. Under the executor: Go creates a thread that runs only when RunSchedule
+// picks it; RunSchedule repeatedly picks one ENABLED thread (forking over the candidates)
+// and runs it to its next yield point - a mutex acquisition, WaitGroup.Wait, a channel
+// operation, select, or Yield(). Natively (replay) the threads are goroutines parked at
+// their controllable yield points (start and Yield); RunSchedule replays the model's
+// choices "$sched#k" by releasing the chosen thread and waiting until it parks again,
+// finishes, or visibly blocks (mutex / WaitGroup: detected by a short timeout).
+
+type nthread struct {
+	name    string
+	release chan struct{}
+	parked  chan struct{}
+	done    bool
+	atPark  bool
+}
+
+var (
+	nmu      sync.Mutex
+	nthreads []*nthread
+	ncur     = map[int64]*nthread{}
+)
+
+// Go starts a harness thread.
+func Go(name string, f func()) {
+	t := &nthread{name: name, release: make(chan struct{}), parked: make(chan struct{}, 1)}
+	nmu.Lock()
+	nthreads = append(nthreads, t)
+	nmu.Unlock()
+	go func() {
+		setCur(t)
+		t.park()
+		f()
+		nmu.Lock()
+		t.done = true
+		nmu.Unlock()
+		t.parked <- struct{}{}
+	}()
+}
+
+func (t *nthread) park() {
+	nmu.Lock()
+	t.atPark = true
+	nmu.Unlock()
+	t.parked <- struct{}{}
+	<-t.release
+	nmu.Lock()
+	t.atPark = false
+	nmu.Unlock()
+}
+
+// Yield is a scheduling point inside harness callbacks.
+func Yield() {
+	if t := getCur(); t != nil {
+		t.park()
+	}
+}
+
+// ThreadName labels the calling thread in traces (executor only).
+func ThreadName(name string) {}
 
 // RunSchedule runs spawned threads for at most budget scheduling steps and reports
 // "done", "deadlock" or "budget".
-func RunSchedule(budget int) string { return nativeRunSchedule(budget) }
+func RunSchedule(budget int) string {
+	load()
+	// wait until every thread reached its first park
+	for _, t := range snapshot() {
+		<-t.parked
+	}
+	for step := 0; step < budget; step++ {
+		ts := snapshot()
+		all := true
+		for _, t := range ts {
+			if !t.isDone() {
+				all = false
+			}
+		}
+		if all {
+			return "done"
+		}
+		v, ok := draw("$sched")
+		if !ok {
+			break
+		}
+		i := int(toInt(v)) - 1 // executor thread ids start at 1
+		kind, _ := draw("$schedkind")
+		if i < 0 || i >= len(ts) {
+			continue
+		}
+		t := ts[i]
+		Trace = append(Trace, fmt.Sprintf("step %d thread %d kind %v parked=%v done=%v", step, i, kind, t.isParked(), t.isDone()))
+		if ks, _ := kind.(string); ks == "sync" {
+			// the model ran a segment that starts at a mutex / WaitGroup / channel: natively that
+			// segment runs by itself as soon as it can
+			time.Sleep(2 * time.Millisecond)
+			continue
+		}
+		if t.isDone() || !t.isParked() {
+			// the model's step ran an uncontrollable segment (after a mutex / WaitGroup): natively
+			// the thread is already past it or still blocked; give it a moment
+			time.Sleep(2 * time.Millisecond)
+			continue
+		}
+		t.release <- struct{}{}
+		select {
+		case <-t.parked:
+		case <-time.After(30 * time.Millisecond):
+			// blocked on a mutex or WaitGroup: it will move when others do
+		}
+	}
+	// let everything finish
+	deadline := time.After(2 * time.Second)
+	for {
+		ts := snapshot()
+		all := true
+		for _, t := range ts {
+			if !t.isDone() {
+				all = false
+				if t.isParked() {
+					select {
+					case t.release <- struct{}{}:
+					default:
+					}
+				}
+			}
+		}
+		if all {
+			return "done"
+		}
+		select {
+		case <-deadline:
+			return "budget"
+		case <-time.After(time.Millisecond):
+		}
+	}
+}
 
-// Yield is a scheduling point inside harness callbacks.
-func Yield() { nativeYield() }
+func snapshot() []*nthread {
+	nmu.Lock()
+	defer nmu.Unlock()
+	return append([]*nthread(nil), nthreads...)
+}
 
-// ThreadName labels the calling thread in traces.
-func ThreadName(name string) {}
+func (t *nthread) isDone() bool   { nmu.Lock(); defer nmu.Unlock(); return t.done }
+func (t *nthread) isParked() bool { nmu.Lock(); defer nmu.Unlock(); return t.atPark }
 
-var nativeRunSchedule = func(budget int) string { return "done" }
-var nativeYield = func() {}
+// goroutine-local current thread, keyed by goroutine id
+func setCur(t *nthread) { nmu.Lock(); ncur[goid()] = t; nmu.Unlock() }
+func getCur() *nthread  { nmu.Lock(); defer nmu.Unlock(); return ncur[goid()] }
+
+// ResetSchedule forgets threads of an earlier harness run.
+func ResetSchedule() { nmu.Lock(); nthreads = nil; ncur = map[int64]*nthread{}; nmu.Unlock() }
